@@ -294,7 +294,7 @@ func TestReactorEndToEnd(t *testing.T) {
 		for i := range scs {
 			sc := e2eScenario{n: uint32(rapid.IntRange(2, 8).Draw(t, "n")), height: rapid.SampledFrom([]uint64{3, 5, 6}).Draw(t, "h"),
 				fetchers: int32(rapid.IntRange(1, 4).Draw(t, "fetchers"))}
-			np := rapid.IntRange(1, 4).Draw(t, "peers")
+			np := rapid.SampledFrom([]int{1, 2, 2, 3, 3, 3, 4, 4}).Draw(t, "peers")
 			sc.peers = append(sc.peers, e2ePeerSpec{kind: "honest", delayMs: rapid.IntRange(0, 20).Draw(t, "delay")})
 			for j := 1; j < np; j++ {
 				ps := e2ePeerSpec{kind: rapid.SampledFrom(weighted("corrupt", 5, "honest", 1, "bogus-advert", 2, "silent", 1, "slow", 1, "wrong-index", 1, "missing", 1)).Draw(t, "kind"),
@@ -302,7 +302,7 @@ func TestReactorEndToEnd(t *testing.T) {
 				if ps.kind == "corrupt" {
 					ps.corrupt = map[uint32]bool{}
 					for idx := uint32(0); idx < sc.n; idx++ {
-						if rapid.IntRange(0, 2).Draw(t, "corrupt?") == 0 {
+						if rapid.Bool().Draw(t, "corrupt?") {
 							ps.corrupt[idx] = true
 						}
 					}
